@@ -31,7 +31,7 @@ func (m *logMem) Clear()                 {}
 func (m *logMem) Dump(uint32) []byte     { return nil }
 
 type busOp struct {
-	kind       byte // A R W D
+	kind       byte // A R W T D   (T = EaRead24_wrap at bank s>>16, offset s&0xFFFF)
 	m, s, e, n uint32
 }
 
@@ -41,6 +41,8 @@ func (o busOp) String() string {
 		return fmt.Sprintf("A %x %x %x", o.m, o.s, o.e)
 	case 'R', 'W':
 		return fmt.Sprintf("%c %x", o.kind, o.s)
+	case 'T':
+		return fmt.Sprintf("T %x %x", o.s>>16, o.s&0xFFFF)
 	default:
 		return fmt.Sprintf("D %x %x %x", o.s, o.e, o.n)
 	}
@@ -103,6 +105,23 @@ func execBusOps(ops []busOp) []string {
 					out[i] = fmt.Sprintf("log%d", len(log))
 				} else {
 					out[i] = log[0]
+				}
+			case 'T':
+				log = log[:0]
+				v := b.EaRead24_wrap(byte(o.s>>16), uint16(o.s))
+				if len(log) != 3 {
+					out[i] = fmt.Sprintf("log%d", len(log))
+				} else {
+					out[i] = strings.Join(log, ",")
+					var want uint32
+					for k, l := range log {
+						var id, a uint32
+						fmt.Sscanf(l, "m%x:%x", &id, &a)
+						want |= uint32(prng.Hash(uint64(id), a)) << (8 * uint(k))
+					}
+					if v != want {
+						out[i] += "!value"
+					}
 				}
 			case 'D':
 				data := make([]byte, o.n)
@@ -184,11 +203,19 @@ func genBusHistory(r *prng.R, rep *report.Report) []busOp {
 		} else {
 			a = pick()
 		}
-		switch r.N(5) {
+		switch r.N(6) {
 		case 0, 1:
 			ops = append(ops, busOp{kind: 'R', s: a})
 		case 2:
 			ops = append(ops, busOp{kind: 'W', s: a})
+		case 3:
+			if r.Chance(25) {
+				a = a&0xFF0000 | uint32(0xFFFD+r.N(3)) // the three bytes wrap inside the bank
+			} else if r.Chance(40) {
+				a = a&^15 | uint32(13+r.N(3)) // the three bytes straddle a 16-byte segment boundary
+			}
+			ops = append(ops, busOp{kind: 'T', s: a})
+			rep.Count("read24")
 		default:
 			e := a + uint32(r.N(70))
 			if r.Chance(10) {
@@ -262,6 +289,22 @@ func busOracle(ops []busOp) []string {
 			} else {
 				out[i] = "panic"
 			}
+		case 'T':
+			var parts []string
+			for k := uint32(0); k < 3; k++ {
+				a := o.s&0xFF0000 | uint32(uint16(o.s)+uint16(k))
+				m, ok := route(a)
+				if !ok {
+					parts = nil
+					break
+				}
+				parts = append(parts, fmt.Sprintf("m%x:%x", m, a))
+			}
+			if parts == nil {
+				out[i] = "panic"
+			} else {
+				out[i] = strings.Join(parts, ",")
+			}
 		case 'D':
 			var sb strings.Builder
 			cnt := uint32(0)
@@ -312,6 +355,8 @@ func runBus() {
 		[]busOp{{kind: 'A', m: 1, s: 0, e: 15}, {kind: 'A', m: 2, s: 16, e: 31}, {kind: 'D', s: 8, e: 23, n: 18}},
 		[]busOp{{kind: 'A', m: 1, s: 0, e: 15}, {kind: 'A', m: 2, s: 32, e: 47}, {kind: 'D', s: 8, e: 40, n: 35}},
 		[]busOp{{kind: 'D', s: 3, e: 50, n: 50}},
+		[]busOp{{kind: 'A', m: 1, s: 0, e: 15}, {kind: 'A', m: 2, s: 16, e: 31}, {kind: 'R', s: 4}, {kind: 'T', s: 14}, {kind: 'R', s: 17}, {kind: 'W', s: 18}},
+		[]busOp{{kind: 'A', m: 1, s: 0x10000, e: 0x1000F}, {kind: 'A', m: 2, s: 0x1FFF0, e: 0x1FFFF}, {kind: 'A', m: 3, s: 0x20000, e: 0x2000F}, {kind: 'T', s: 0x1FFFE}, {kind: 'R', s: 0x10001}},
 		[]busOp{{kind: 'A', m: 1, s: 0xFFFFF0, e: 0xFFFFFF}, {kind: 'D', s: 0xFFFFE8, e: 0xFFFFFF, n: 24}, {kind: 'R', s: 0xFFFFFF}},
 	)
 	for i := 0; i < n; i++ {
@@ -376,7 +421,7 @@ func runBus() {
 	rep.Evaluations = ops
 	rep.Distinct = int64(len(distinct))
 	rep.CountN("histories", int64(len(hists)))
-	rep.Rule = "random Attach/read/write/dump histories (aligned, misaligned, overlapping, adjacent, re-attached, empty ranges; dumps with every start/end alignment " +
+	rep.Rule = "random Attach/read/write/24-bit-read/dump histories (aligned, misaligned, overlapping, adjacent, re-attached, empty ranges; dumps with every start/end alignment " +
 		"across memories and holes; windows at $000000, random and $FFFC00) run on the real bus.Bus with address-logging memories, on the Lean model and on a Go oracle of the property; " +
 		"evaluations = operations executed; distinct_nontrivial = distinct history shapes (sequence of op kind + outcome class)"
 	rep.Emit()
